@@ -40,6 +40,9 @@ type Checker struct {
 
 	failedPeersMu sync.Mutex
 	failedPeers   map[peer.ID]map[string]int
+	// alertedAt remembers when (UnixNano) the last alert for a peer and
+	// metric name was sent.
+	alertedAt map[peer.ID]map[string]int64
 }
 
 // NewChecker creates a Checker using the given
@@ -55,6 +58,7 @@ func NewChecker(ctx context.Context, metrics *Store, threshold float64) *Checker
 		metrics:     metrics,
 		threshold:   threshold,
 		failedPeers: make(map[peer.ID]map[string]int),
+		alertedAt:   make(map[peer.ID]map[string]int64),
 	}
 }
 
@@ -115,15 +119,37 @@ func (mc *Checker) alert(pid peer.ID, metricName string) error {
 	// If above threshold, remove all metrics for that peer
 	// and clean up failedPeers when no failed metrics are left.
 	if failedMetrics[metricName] >= MaxAlertThreshold {
-		mc.metrics.RemovePeerMetrics(pid, metricName)
-		delete(failedMetrics, metricName)
-		if len(mc.failedPeers[pid]) == 0 {
-			delete(mc.failedPeers, pid)
+		renewed := false
+		for _, m := range mc.metrics.PeerMetricAll(metricName, pid) {
+			// received after our alert and unexpired on arrival
+			if m.ReceivedAt > mc.alertedAt[pid][metricName] && m.Expire > m.ReceivedAt {
+				renewed = true
+				break
+			}
 		}
-		return nil
+		if !renewed {
+			// no renewal since our alert: forget the stale metric
+			mc.metrics.RemovePeerMetrics(pid, metricName)
+			delete(failedMetrics, metricName)
+			if len(mc.failedPeers[pid]) == 0 {
+				delete(mc.failedPeers, pid)
+			}
+			delete(mc.alertedAt[pid], metricName)
+			if len(mc.alertedAt[pid]) == 0 {
+				delete(mc.alertedAt, pid)
+			}
+			return nil
+		}
+		// The metric was renewed after our alert and has expired
+		// again: this is a new failure and must be reported.
+		failedMetrics[metricName] = 0
 	}
 
 	failedMetrics[metricName]++
+	if _, ok := mc.alertedAt[pid]; !ok {
+		mc.alertedAt[pid] = make(map[string]int64)
+	}
+	mc.alertedAt[pid][metricName] = time.Now().UnixNano()
 
 	alrt := &api.Alert{
 		Metric:      *lastMetric,
@@ -191,6 +217,18 @@ func (mc *Checker) failed(metric string, pid peer.ID) (float64, []float64, float
 	// not expired or we do not have enough number of metrics
 	// for accrual detection
 	if !latest.Expired() {
+		// The metric is alive (again): any previous alert for it is
+		// history and a later expiry is a new failure.
+		mc.failedPeersMu.Lock()
+		delete(mc.failedPeers[pid], metric)
+		if len(mc.failedPeers[pid]) == 0 {
+			delete(mc.failedPeers, pid)
+		}
+		delete(mc.alertedAt[pid], metric)
+		if len(mc.alertedAt[pid]) == 0 {
+			delete(mc.alertedAt, pid)
+		}
+		mc.failedPeersMu.Unlock()
 		return 0.0, nil, 0.0, false
 	}
 	// The latest metric has expired
